@@ -84,6 +84,15 @@ static std::string run_array(const std::vector<std::string> &ops) {
                 default: { T &ref = o[r]->Insert(E::enc(n)); if (&ref != o[r]->Storage() + before) extra = "!insert-ref"; break; }
             }
             sh[r].push_back(n);
+        } else if (k == "pushi" && t.size() == 3 && nat(t[2], n)) {
+            // the argument is a const reference INTO this array's own storage (which may have to grow)
+            if (n < o[r]->Size()) {
+                const SizeT before = o[r]->Size();
+                const U64   val    = sh[r][n];
+                if (counter % 2) *o[r] += static_cast<const T &>(o[r]->First()[n]);
+                else { T &ref = o[r]->Insert(static_cast<const T &>(o[r]->First()[n])); if (&ref != o[r]->Storage() + before) extra = "!insert-ref"; }
+                sh[r].push_back(val);
+            }
         } else if (k == "appc" && t.size() == 3 && reg(t[2], s)) {
             Vec src = sh[s];
             if (counter % 2) *o[r] += static_cast<const A &>(*o[s]); else o[r]->Insert(static_cast<const A &>(*o[s]));
@@ -140,7 +149,7 @@ static std::string run_array(const std::vector<std::string> &ops) {
             const T *last = o[i]->Last();
             if (i) out += '/';
             out += num(o[i]->Size()) + ":" + num(o[i]->Capacity()) + ":" + showv(c) + ":" + (last ? num(E::dec(*last)) : std::string("-"));
-            if (o[i]->IsEmpty() != (o[i]->Size() == 0) || o[i]->End() != o[i]->First() + o[i]->Size()) shadow_ok = false;
+            if (o[i]->IsEmpty() != (o[i]->Size() == 0) || o[i]->IsNotEmpty() == o[i]->IsEmpty() || o[i]->End() != o[i]->First() + o[i]->Size()) shadow_ok = false;
         }
         out += extra;
         if (!shadow_ok) out += "!shadow";
@@ -222,6 +231,21 @@ static std::string run_string(const std::vector<std::string> &ops) {
             else { ZBuf<C> b(u); if (n == 0) *o[r] += static_cast<const C *>(b.p); else *o[r] << static_cast<const C *>(b.p); }
             sh[r].insert(sh[r].end(), u.begin(), u.end());
         } else if (k == "appch") { R(1); Nx(2, n); *o[r] += C(n); sh[r].push_back(unit(C(n)));
+        } else if (k == "appo" || k == "asgo") {
+            // the argument points INTO this string's own block (front, middle, end; a range or the C string from there)
+            U64 v = 0, off = 0, cnt = 0;
+            if (k == "appo") { Nx(1, v); R(2); Nx(3, off); Nx(4, cnt); } else { R(1); Nx(2, off); }
+            if (o[r]->First() != nullptr) {
+                const U64 len = o[r]->Length();
+                if (off > len) off = len;
+                if (cnt > len - off) cnt = len - off;
+                Vec cs; for (U64 i = off; i < len && sh[r][i] != 0; i++) cs.push_back(sh[r][i]);
+                Vec sl(sh[r].begin() + long(off), sh[r].begin() + long(off + cnt));
+                const C *p = o[r]->First() + off;
+                if (k == "asgo") { *o[r] = p; sh[r] = cs; }
+                else if (v == 0) { o[r]->Write(p, SizeT(cnt)); sh[r].insert(sh[r].end(), sl.begin(), sl.end()); }
+                else { if (v == 1) *o[r] += p; else *o[r] << p; sh[r].insert(sh[r].end(), cs.begin(), cs.end()); }
+            }
         } else if (k == "plus") { R(1); Sx(2); if (t.size() != 4 || !reg(t[3], q)) throw Bad{};
             Vec res = sh[s]; res.insert(res.end(), sh[q].begin(), sh[q].end());
             if (counter % 2) *o[r] = *o[s] + static_cast<const S &>(*o[q]); else *o[r] = S::Merge(*o[s], *o[q]);
@@ -269,7 +293,7 @@ static std::string run_string(const std::vector<std::string> &ops) {
                 const C *last = x.Last();
                 out += num(x.Length()) + ":" + num(unit(x.First()[x.Length()])) + ":" + showv(c) + ":" + (last ? num(unit(*last)) : std::string("-"));
             }
-            if (x.IsEmpty() != (x.Length() == 0) || x.End() != x.First() + x.Length()) shadow_ok = false;
+            if (x.IsEmpty() != (x.Length() == 0) || x.IsNotEmpty() == x.IsEmpty() || x.End() != x.First() + x.Length()) shadow_ok = false;
         }
         out += extra;
         if (!shadow_ok) out += "!shadow";
@@ -325,6 +349,25 @@ static std::string run_stream(const std::vector<std::string> &ops) {
             else if (v == 6 || has_zero(u)) { o[r]->Write(e.p, SizeT(e.n)); }
             else { ZBuf<C> z(u); if (v == 2) *o[r] += static_cast<const C *>(z.p); else *o[r] << static_cast<const C *>(z.p); }
             app(sh[r], u);
+        } else if (k == "appo" || k == "asgo") {
+            // the argument points INTO this stream's own buffer (a range, a view of it, the C string from there)
+            U64 off = 0, cnt = 0;
+            Nx(1, v); R(2); Nx(3, off); Nx(4, cnt);
+            const U64 len = o[r]->Length();
+            if (off > len) off = len;
+            if (cnt > len - off) cnt = len - off;
+            Vec cs; for (U64 i = off; i < len && sh[r][i] != 0; i++) cs.push_back(sh[r][i]);
+            Vec sl(sh[r].begin() + long(off), sh[r].begin() + long(off + cnt));
+            Vec all = sh[r];
+            if (k == "asgo") {
+                if (v == 0) { StringView<C> vw(o[r]->First() + off, SizeT(cnt)); *o[r] = vw; sh[r] = sl; }
+                else { o[r]->InsertNull(); *o[r] = static_cast<const C *>(o[r]->First() + off); sh[r] = cs; }
+            } else if (v == 0) { o[r]->Write(o[r]->First() + off, SizeT(cnt)); app(sh[r], sl);
+            } else if (v == 1) { StringView<C> vw(o[r]->First() + off, SizeT(cnt)); plus_view<C>(*o[r], vw); app(sh[r], sl);
+            } else if (v == 2) { StringView<C> vw(o[r]->First() + off, SizeT(cnt)); *o[r] << vw; app(sh[r], sl);
+            } else if (v == 3) { o[r]->InsertNull(); *o[r] += static_cast<const C *>(o[r]->First() + off); app(sh[r], cs);
+            } else if (v == 4) { o[r]->InsertNull(); *o[r] << static_cast<const C *>(o[r]->First() + off); app(sh[r], cs);
+            } else { StringView<C> vw = o[r]->GetStringView(); *o[r] << vw; app(sh[r], all); }
         } else if (k == "clear") { R(1); o[r]->Clear(); sh[r].clear();
         } else if (k == "reset") { R(1); o[r]->Reset(); sh[r].clear();
         } else if (k == "detach") { R(1);
@@ -386,7 +429,7 @@ static std::string run_stream(const std::vector<std::string> &ops) {
             if (c != sh[i]) shadow_ok = false;
             const C *last = x.Last();
             out += num(x.Length()) + ":" + num(x.Capacity()) + ":" + showv(c) + ":" + (last ? num(unit(*last)) : std::string("-"));
-            if (x.IsEmpty() != (x.Length() == 0) || x.End() != x.First() + x.Length()) shadow_ok = false;
+            if (x.IsEmpty() != (x.Length() == 0) || x.IsNotEmpty() == x.IsEmpty() || x.End() != x.First() + x.Length()) shadow_ok = false;
         }
         out += extra;
         if (!shadow_ok) out += "!shadow";
@@ -448,7 +491,7 @@ static std::string run_view(const std::vector<std::string> &ops) {
             if (c != sh[i]) shadow_ok = false;
             if (x.First() == nullptr) out += "N:" + num(x.Length());
             else { const C *last = x.Last(); out += num(x.Length()) + ":" + showv(c) + ":" + (last ? num(unit(*last)) : std::string("-")); }
-            if (x.IsEmpty() != (x.Length() == 0) || x.End() != x.First() + x.Length()) shadow_ok = false;
+            if (x.IsEmpty() != (x.Length() == 0) || x.IsNotEmpty() == x.IsEmpty() || x.End() != x.First() + x.Length()) shadow_ok = false;
         }
         out += extra;
         if (!shadow_ok) out += "!shadow";
